@@ -93,3 +93,34 @@ func vResetScenario(kind int) {
 
 func VerifC16_WorldResetPlain() { vResetScenario(0) }
 func VerifC16_WorldResetRel()   { vResetScenario(1) }
+
+// ---- C15: Shrink directly after Reset (every relation table is free) must find nothing to
+// do and must not disturb the later recycling of those tables for new targets.
+func VerifC15_ShrinkAfterReset() {
+	W := vShapeFor(1)
+	W.w.Reset()
+	for i := 0; i < W.n; i++ {
+		W.e[i].alive = false
+	}
+	W.n = 0
+	vclockbound(3599_000_000_000)
+	var more bool
+	vcheck("shrink-no-panic", !vpanics(func() { more = W.w.Shrink() }))
+	vcheck("nothing-to-shrink-after-reset", !more)
+	W.checkAll("after-shrink")
+	var ps [4]int
+	for k := range ps {
+		ps[k] = W.create([]int{cA}, Entity{}, Entity{})
+	}
+	for k := range ps {
+		W.create([]int{cR1, cA}, W.e[ps[k]].h, Entity{})
+		W.create([]int{cR1, cR2}, W.e[ps[k]].h, W.e[ps[(k+1)%4]].h)
+	}
+	for i := 0; i < W.n; i++ {
+		W.havocValues(i)
+	}
+	W.checkAll("repopulated")
+	vMode = 1
+	W.applyOp(5, "after-op")
+	vreach("end")
+}
